@@ -497,7 +497,10 @@ fn validate_nameserver_response(
 
 /// Given a set of RRs and a domain name we're looking for, follow
 /// `CNAME`s in the response and return the final name (which is the
-/// name that will have the non-`CNAME` records associated with it).
+/// name that will have the non-`CNAME` records associated with it),
+/// along with the `CNAME`s which were followed to get there.  Any
+/// other `CNAME`s in the response are unrelated to the question and
+/// are not returned.
 ///
 /// Returns `None` if CNAMEs form a loop, or there is no RR which
 /// matches the target name (a CNAME or one with the right type).
@@ -518,17 +521,19 @@ fn follow_cnames(
     }
 
     let mut seen = HashSet::new();
+    let mut followed = HashMap::<DomainName, DomainName>::new();
     let mut final_name = target.clone();
     while let Some(target) = cname_map.get(&final_name) {
         if seen.contains(target) {
             return None;
         }
         seen.insert(target.clone());
+        followed.insert(final_name.clone(), target.clone());
         final_name = target.clone();
     }
 
     if got_match || !seen.is_empty() {
-        Some((final_name, cname_map))
+        Some((final_name, followed))
     } else {
         None
     }
